@@ -38,7 +38,7 @@ fn build_any(cfg: &ScannerCfg, cached: bool) -> Result<scnr::Scanner, String> {
 // ------------------------------------------------------------------------------------------------
 
 pub fn c07_history_case(rng: &mut Rng, st: &mut Stats) -> CaseOutcome {
-    let p = GenParams::default();
+    let p = GenParams::varied(rng);
     let cfg = gen_multi_mode(rng, &p, 25, 3);
     if !guard_roundtrip(&cfg) {
         return CaseOutcome::Skipped;
@@ -163,7 +163,7 @@ pub fn c10_big_case(rng: &mut Rng, st: &mut Stats) -> CaseOutcome {
 }
 
 fn c10_case_sized(rng: &mut Rng, st: &mut Stats, big: bool) -> CaseOutcome {
-    let mut p = GenParams::default();
+    let mut p = GenParams::varied(rng);
     p.max_nodes = 8;
     let la = if rng.chance(1, 3) { 30 } else { 0 };
     let cfg = gen_multi_mode(rng, &p, la, 3);
@@ -446,7 +446,7 @@ fn expected_peek(
 }
 
 pub fn c11_case(rng: &mut Rng, st: &mut Stats) -> CaseOutcome {
-    let mut p = GenParams::default();
+    let mut p = GenParams::varied(rng);
     p.max_nodes = 8;
     let la = if rng.chance(1, 4) { 25 } else { 0 };
     let cfg = gen_multi_mode(rng, &p, la, 3);
@@ -915,7 +915,7 @@ pub fn c06_case(rng: &mut Rng, st: &mut Stats) -> CaseOutcome {
 /// reference semantics on the patterns of the MODEL's current mode.
 pub fn c06_general_case(rng: &mut Rng, st: &mut Stats) -> CaseOutcome {
     use crate::refsem::{best, candidates, LaStats, RefInput, MAX_DENOT_CHARS};
-    let mut p = GenParams::default();
+    let mut p = GenParams::varied(rng);
     p.max_nodes = 8;
     let la = if rng.chance(1, 3) { 25 } else { 0 };
     let cfg = gen_multi_mode(rng, &p, la, 4);
@@ -1286,7 +1286,7 @@ pub fn c09(tier: Tier) -> i32 {
 // ------------------------------------------------------------------------------------------------
 
 pub fn c12_case(rng: &mut Rng, st: &mut Stats) -> CaseOutcome {
-    let mut p = GenParams::default();
+    let mut p = GenParams::varied(rng);
     p.max_nodes = 8;
     let la_pct = if rng.chance(1, 3) { 25 } else { 0 };
     let cfg = gen_multi_mode(rng, &p, la_pct, 3);
@@ -1489,7 +1489,7 @@ pub fn c12_case(rng: &mut Rng, st: &mut Stats) -> CaseOutcome {
 /// Scanner (some dropped mid-scan); every history must equal its solo replay on a fresh uncached
 /// scanner over a separate copy of the content.
 pub fn c12_reuse_case(rng: &mut Rng, st: &mut Stats) -> CaseOutcome {
-    let mut p = GenParams::default();
+    let mut p = GenParams::varied(rng);
     p.max_nodes = 8;
     let la_pct = if rng.chance(1, 3) { 25 } else { 0 };
     let cfg = gen_multi_mode(rng, &p, la_pct, 3);
